@@ -100,3 +100,8 @@ package xpush
 //@
 //@ func (*socket).RemovePipe
 //@   may_close p.closeQ caller
+// ---- generated wake-on-close contracts (from `govc sites -select`) ----
+//@ func (*socket).SendMsg
+//@   before select#1 assert selwaits(s.closeQ)
+//@
+// ---- end generated wake-on-close contracts ----
